@@ -159,6 +159,10 @@ pub struct Scene {
     pub tiles: Vec<usize>,
     pub depth: u8,
     pub jit: bool,
+    /// world-to-model views (2D image, 3D image / mesh); identity in half
+    /// of the scenes
+    pub view2: Matrix3<f32>,
+    pub view3: Matrix4<f32>,
 }
 
 /// Canonical result: a vector of words that is equal iff the results are
@@ -197,7 +201,7 @@ pub fn run_scene<F: Function + MathFunction + RenderHints + Clone>(
             let bound = shape.try_into().ok()?;
             let cfg = fidget_raster::pixel::RenderConfig {
                 image_size: ImageSize::new(sc.w, sc.h),
-                world_to_model: Matrix3::identity(),
+                world_to_model: sc.view2,
                 pixel_perfect: false,
                 z: 0.1,
             };
@@ -238,7 +242,7 @@ pub fn run_scene<F: Function + MathFunction + RenderHints + Clone>(
         Kind::Image3 => {
             let shape = Shape::<F>::new(ctx, root).unwrap();
             let bound = shape.try_into().ok()?;
-            let cfg = fidget_raster::voxel::RenderConfig { image_size: VoxelSize::new(sc.w, sc.h, sc.d), world_to_model: Matrix4::identity() };
+            let cfg = fidget_raster::voxel::RenderConfig { image_size: VoxelSize::new(sc.w, sc.h, sc.d), world_to_model: sc.view3 };
             let ec = fidget_raster::voxel::EvalConfig {
                 tile_sizes: Some(TileSizes::new(&sc.tiles).unwrap()),
                 threads: pool_idx.map(pool),
@@ -273,7 +277,7 @@ pub fn run_scene<F: Function + MathFunction + RenderHints + Clone>(
             })
         }
         Kind::Mesh => {
-            let su = MeshSetup { depth: sc.depth, mat: Matrix4::identity(), jit: sc.jit, pool: pool_idx };
+            let su = MeshSetup { depth: sc.depth, mat: sc.view3, jit: sc.jit, pool: pool_idx };
             build_mesh::<F>(ctx, root, &su, cancel).ok()?.map(|m| canon_mesh(&m))
         }
     }
@@ -305,7 +309,9 @@ pub fn gen_scene(rng: &mut Rng) -> Scene {
         Kind::Mesh => (0, 0, 0, vec![]),
     };
     let mut prog = prog;
+    let mut keep_identity = false;
     if kind == Kind::Image3 && rng.chance(0.3) {
+        keep_identity = true;
         // something just beyond the top of the grid (world z > 1): when the
         // depth is not a multiple of the root tile, the top slab reaches into
         // it and the columns below come out saturated - with or without a pool
@@ -337,6 +343,7 @@ pub fn gen_scene(rng: &mut Rng) -> Scene {
     }
     let (mut w, mut h, mut d, mut tiles) = (w, h, d, tiles);
     if kind == Kind::Image3 && rng.chance(0.15) {
+        keep_identity = true;
         // a body that fills most of the view volume, and a ball far above
         // the grid: over the whole view volume the union is decided (the
         // body), but the top slab of a grid whose depth is just above a
@@ -363,7 +370,19 @@ pub fn gen_scene(rng: &mut Rng) -> Scene {
         w = d + rng.below(8) as u32;
         h = d + rng.below(8) as u32;
     }
-    Scene { kind, prog, w, h, d, tiles, depth: 2 + rng.below(3) as u8, jit: rng.chance(0.5) }
+    // half of the scenes are looked at through a non-identity view (the
+    // far-ball scenes above keep the identity: their geometry is placed in
+    // world coordinates)
+    let plain = rng.chance(0.5) || keep_identity;
+    let view2 = if plain { Matrix3::identity() } else { crate::props::c06::random_mat3(rng) };
+    let view3 = if plain {
+        Matrix4::identity()
+    } else if kind == Kind::Mesh {
+        crate::props::c08::random_mesh_mat(rng)
+    } else {
+        crate::props::c07::random_mat4(rng)
+    };
+    Scene { kind, prog, w, h, d, tiles, depth: 2 + rng.below(3) as u8, jit: rng.chance(0.5), view2, view3 }
 }
 
 ////////////////////////////////////////////////////////////////////////////////
@@ -447,7 +466,8 @@ fn check_log(log: &[Event], cancelled_at: u64, uncancelled: bool, expected_units
 
 fn scene_json(sc: &Scene) -> Value {
     json!({"kind": format!("{:?}", sc.kind), "w": sc.w, "h": sc.h, "d": sc.d, "tiles": sc.tiles, "mesh_depth": sc.depth,
-        "backend": if sc.jit { "jit" } else { "vm" }, "shape": sc.prog.to_json()})
+        "backend": if sc.jit { "jit" } else { "vm" }, "shape": sc.prog.to_json(),
+        "view_2d": format!("{:?}", sc.view2), "view_3d": format!("{:?}", sc.view3)})
 }
 
 fn expected_units(sc: &Scene) -> Option<usize> {
@@ -732,7 +752,7 @@ impl Prop for C09 {
         // an image without pixels is still a render whose token is never
         // set: it returns an (empty) result with or without a pool
         if sc.kind != Kind::Mesh && rng.chance(0.25) {
-            let mut e = Scene { kind: sc.kind, prog: sc.prog.clone(), w: sc.w, h: sc.h, d: sc.d, tiles: sc.tiles.clone(), depth: sc.depth, jit: sc.jit };
+            let mut e = Scene { kind: sc.kind, prog: sc.prog.clone(), w: sc.w, h: sc.h, d: sc.d, tiles: sc.tiles.clone(), depth: sc.depth, jit: sc.jit, view2: sc.view2, view3: sc.view3 };
             match rng.below(3) {
                 0 => e.w = 0,
                 1 => e.h = 0,
